@@ -63,7 +63,19 @@ impl Fam {
         assert_eq!(parts.len(), 8);
         Fam { name: name.into(), d: [parts[0].clone(), parts[1].clone(), parts[2].clone(), parts[3].clone(), parts[4].clone(), parts[5].clone(), parts[6].clone(), parts[7].clone()] }
     }
+    /// `build`, once per delimiter set (the automaton is shared by the clones)
     fn build(&self) -> Result<SyntaxConfig, minijinja::Error> {
+        thread_local! {
+            static CACHE: std::cell::RefCell<std::collections::HashMap<[String; 8], SyntaxConfig>> = Default::default();
+        }
+        if let Some(s) = CACHE.with(|c| c.borrow().get(&self.d).cloned()) {
+            return Ok(s);
+        }
+        let s = self.build_uncached()?;
+        CACHE.with(|c| c.borrow_mut().insert(self.d.clone(), s.clone()));
+        Ok(s)
+    }
+    fn build_uncached(&self) -> Result<SyntaxConfig, minijinja::Error> {
         let mut b = SyntaxConfig::builder();
         b.block_delimiters(self.d[0].clone(), self.d[1].clone());
         b.variable_delimiters(self.d[2].clone(), self.d[3].clone());
@@ -123,6 +135,19 @@ fn families() -> Vec<Fam> {
         Fam::new("alpha", ["aab", "baa", "abab", "baba", "aaa", "aaa", "", ""]),
         Fam::new("swap", ["**/", "/**", "-->", "<--", "##}", "{##", "", ""]),
         Fam::new("lineov", ["{%", "%}", "{{", "}}", "{#", "#}", "--", "---"]),
+        // end delimiters that begin with a whitespace-marker character, a digit, a letter; a comment
+        // end that begins with whitespace
+        Fam::new("dashend", ["<%", "-%>", "<=", "->", "<#", "-#>", "", ""]),
+        Fam::new("plusend", ["[%", "+%]", "[[", "+]]", "[#", "+#]", "", ""]),
+        Fam::new("digitend", ["<1", "1>", "<2", "2>", "<3", "3>", "", ""]),
+        Fam::new("letterend", ["<b", "b>", "<v", "v>", "<c", "c>", "", ""]),
+        Fam::new("wsend", ["{%", "%}", "{{", "}}", "{#", " #}", "", ""]),
+        // end delimiters that end in horizontal whitespace
+        Fam::new("wstrail", ["{%", "%} ", "{{", "}}\t", "{#", "#}\u{a0}", "", ""]),
+        // block / variable / comment start delimiters that end in a line break
+        Fam::new("nlstart", ["{%\n", "%}", "{{\n", "}}", "{#\r\n", "#}", "", ""]),
+        // the marked reading of an end delimiter can swallow the text behind it (`--` + `-x`)
+        Fam::new("dashdash", ["<%", "--", "<=", "++", "<#", "--", "", ""]),
     ]
 }
 
@@ -369,7 +394,7 @@ fn run_line(tlk: &str, fam: &str, nl: &str, lines: &str) -> String {
 
 fn run_cfg(fam: &str) -> String {
     let f = Fam::dec(fam);
-    let r = guarded(|| f.build());
+    let r = guarded(|| f.build_uncached());
     match r {
         Ok(Ok(syn)) => {
             // a configuration that is accepted must lex a probe without panicking or hanging, and
@@ -402,6 +427,16 @@ fn at_line_start(src: &str, p: usize) -> bool {
     true
 }
 
+/// an unmarked closing side is not read as a marked one: the end delimiter `--` followed by the text
+/// `-x` is read as `-` + `--` (by the lexer as by Jinja2)
+fn close_ok(e: &str, r: char, following: &str) -> bool {
+    if r != '_' || !(e.starts_with('-') || e.starts_with('+')) {
+        return true;
+    }
+    let all = format!("{}{}", e, following);
+    !all[1..].starts_with(e)
+}
+
 /// no start delimiter of `f` begins inside a text region, and at every tag start the longest
 /// matching start delimiter is the tag's own
 fn is_free(f: &Fam, segs: &str) -> bool {
@@ -412,6 +447,7 @@ fn is_free(f: &Fam, segs: &str) -> bool {
     // (region start, region end) text regions and (pos, own delimiter) tag starts
     let mut regions: Vec<(usize, usize)> = vec![];
     let mut tags: Vec<(usize, String)> = vec![];
+    let mut closes: Vec<(usize, String, char)> = vec![];
     let mut region_start = 0;
     let mut nblock = 0;
     for it in segs.split(';') {
@@ -434,20 +470,33 @@ fn is_free(f: &Fam, segs: &str) -> bool {
         };
         tags.push((src.len(), own.to_string()));
         src.push_str(&item_src(f, it, &mut nblock));
-        if c[0] == 'K' {
+        if c[0] == 'K' || (c[0] == 'G' && c[1] == 'c') {
             // the comment must read back as written
-            let body = unhexs(&it[3..]);
-            let br = format!("{}{}", body, mk(c[2]));
+            let (lm, rm, body) = if c[0] == 'K' { (c[1], c[2], unhexs(&it[3..])) } else { (c[2], c[3], unhexs(&it[4..])) };
+            let br = format!("{}{}", body, mk(rm));
             let probe = format!("{}{}", br, f.ce());
             if probe.find(f.ce()) != Some(br.len()) {
                 return false;
             }
             let is_mark = |x: Option<char>| matches!(x, Some('-') | Some('+'));
-            if c[1] == '_' && is_mark(probe.chars().next()) {
+            if lm == '_' && is_mark(probe.chars().next()) {
                 return false;
             }
-            if c[2] == '_' && is_mark(body.chars().last().or(f.ce().chars().next())) {
+            // the byte in front of the end delimiter is the closing marker (an empty body has none)
+            if rm == '_' && is_mark(body.chars().last()) {
                 return false;
+            }
+        }
+        if c[0] == 'G' && c[1] != 'c' && c[3] == '_' {
+            // the last token of the interior ends where the end delimiter begins
+            let e = if c[1] == 'v' { f.ve() } else { f.be() };
+            let interior = unhexs(&it[4..]);
+            if let (Some(a), Some(b)) = (interior.chars().last(), e.chars().next()) {
+                let idc = |x: char| x.is_alphanumeric() || x == '_' || !x.is_ascii();
+                let two = matches!((a, b), ('/', '/') | ('*', '*') | ('=', '=') | ('!', '=') | ('>', '=') | ('<', '='));
+                if (idc(a) && idc(b)) || (a.is_ascii_digit() && b == '.') || two {
+                    return false;
+                }
             }
         }
         if c[0] == 'G' {
@@ -463,22 +512,37 @@ fn is_free(f: &Fam, segs: &str) -> bool {
                 return false;
             }
         }
-        if c[0] == 'G' && c[1] == 'c' {
-            let body = format!("{}{}", unhexs(&it[4..]), mk(c[3]));
-            if body.contains(f.ce()) {
-                return false;
-            }
-        }
         if c[0] == 'R' || c[0] == 'r' {
             let content = unhexs(&it[5..]);
             let probe = format!("{}{}", content, f.bs());
             if probe.find(f.bs()) != Some(content.len()) || content.contains("endraw") {
                 return false;
             }
+            // the unmarked closing side of `raw` is not read as a marked one
+            let p = if c[0] == 'r' { "" } else { " " };
+            let inner = format!("{}{}{}{}endraw{}{}{}", content, f.bs(), mk(c[3]), p, p, mk(c[4]), f.be());
+            if !close_ok(f.be(), c[2], &inner) {
+                return false;
+            }
+        }
+        // the unmarked closing side of a variable / block / raw tag is not read as a marked one; this
+        // depends on the text behind the tag and is looked at when the source is complete
+        match c[0] {
+            'V' | 'v' => closes.push((src.len(), f.ve().to_string(), c[2])),
+            'B' | 'b' => closes.push((src.len(), f.be().to_string(), c[2])),
+            'R' | 'r' => closes.push((src.len(), f.be().to_string(), c[4])),
+            'G' if c[1] == 'v' => closes.push((src.len(), f.ve().to_string(), c[3])),
+            'G' if c[1] == 'b' => closes.push((src.len(), f.be().to_string(), c[3])),
+            _ => {}
         }
         region_start = src.len();
     }
     regions.push((region_start, src.len()));
+    for (end, e, r) in &closes {
+        if !close_ok(e, *r, &src[*end..]) {
+            return false;
+        }
+    }
     let starts = f.starts();
     for (a, b) in regions {
         for p in a..b {
@@ -624,8 +688,55 @@ const BLOCK_INTERIORS: [&str; 8] = [
     " if t and (1 < 2) ", " set x = '%}' ", " if (t) ", " if t -", " rawx ", " raw", " if '%}' ", "if t",
 ];
 
+/// string literals with every kind of escape `utils::unescape` knows, valid and invalid, in both quotes
+fn escape_bodies() -> Vec<String> {
+    let bodies = [
+        // valid
+        "\\u0041", "\\u00e9x", "\\ud83d\\ude00", "\\uD83D\\uDE00!", "\\u+041", "\\uffff", "\\x41", "\\x+f", "\\xFf", "\\101", "\\7", "\\377",
+        "\\08", "\\1234", "\\0", "a\\tb\\\\n", "\\q", "\\u007d}", "\\\\u12", "\\u0041\\x41\\101\\n", "\\18", "\\é", "é\\u00e9",
+        // invalid
+        "\\ud83d", "\\ud83dx", "\\ud83d\\u0041", "\\ud83d\\n", "\\ud83d\\x41", "\\ude00", "\\ude00\\ude00", "\\ud83d\\ud83d", "\\ude00\\ud83d",
+        "\\u12", "\\u12g4", "\\u-123", "\\u 123", "\\u++12", "\\u12+4", "\\u", "\\x4", "\\xg1", "\\x++", "\\x4+", "\\x", "\\400", "\\777",
+        "\\u12\\\"34", "\\x\\\"4", "\\u00é9", "\\xé",
+    ];
+    let mut v = vec![];
+    for b in bodies {
+        v.push(format!("\"{}\"", b));
+        v.push(format!("'{}'", b.replace("\\\"", "\\'")));
+    }
+    // unterminated
+    v.push("\"\\u0041".into());
+    v.push("'a\\".into());
+    v
+}
+
+/// strings that contain the family's own delimiters (and escapes next to them)
+fn lookalike_interiors(f: &Fam) -> Vec<(char, String)> {
+    let mut v = vec![];
+    for k in 0..6 {
+        let dl = &f.d[k];
+        if dl.contains('"') || dl.contains('\\') {
+            continue;
+        }
+        v.push(('v', format!(" \"{}\" ", dl)));
+        v.push(('v', format!("\"{}\"", dl)));
+        v.push(('v', format!(" '{}' ~ \"\\u0041{}\" ", dl, dl)));
+        v.push(('b', format!(" if v == \"{}\" ", dl)));
+        v.push(('b', format!(" set x = '{}\\x41' ", dl)));
+        v.push(('c', format!(" \"{}\" ", dl)));
+    }
+    v
+}
+
 fn interior_items() -> Vec<String> {
     let mut v = vec![];
+    for body in escape_bodies() {
+        for (l, r) in [('_', '_'), ('-', '-')] {
+            v.push(format!("Gv{}{}{}", l, r, hexs(&format!(" {} ", body))));
+        }
+        v.push(format!("Gv__{}", hexs(&body)));
+        v.push(format!("Gb__{}", hexs(&format!(" if {} ", body))));
+    }
     for (k, list) in [('v', &VAR_INTERIORS[..]), ('b', &BLOCK_INTERIORS[..])] {
         for body in list {
             for (l, r) in [('_', '_'), ('-', '_'), ('_', '-'), ('-', '-'), ('+', '+')] {
@@ -741,6 +852,13 @@ fn gen_seg(out: &mut impl Write, tier: &str, rng: &mut Rng, part: &str, chunk: u
             }
         }
     }
+    for (k, body) in lookalike_interiors(d) {
+        for (l, r) in [('_', '_'), ('-', '_'), ('_', '-'), ('+', '+')] {
+            for a in ["", " ", "\n"] {
+                seqs.push(format!("{};G{}{}{}{};T0a", t_item(a), k, l, r, hexs(&body)));
+            }
+        }
+    }
     // raw: inner text alphabet x inner markers already in raws_full; outer texts x outer markers
     for a in &texts {
         for g in &raws_full {
@@ -837,8 +955,20 @@ fn gen_seg(out: &mut impl Write, tier: &str, rng: &mut Rng, part: &str, chunk: u
                 }
             }
         }
+        for g in &fdegen {
+            for g2 in ["V__", "B__", "C__", "K-_", "K+_", "K__"] {
+                fseqs.push(format!("{};{}", g, g2));
+                fseqs.push(format!("{};{}", g2, g));
+            }
+        }
         for g in &interiors {
             fseqs.push(format!("T20;{};T0a", g));
+        }
+        for (k, body) in lookalike_interiors(f) {
+            for (l, r) in [('_', '_'), ('-', '_'), ('_', '-'), ('+', '+')] {
+                fseqs.push(format!("T20;G{}{}{}{};T0a", k, l, r, hexs(&body)));
+                fseqs.push(format!("G{}{}{}{};T78", k, l, r, hexs(&body)));
+            }
         }
         // texts, comment bodies and raw contents built from the delimiters' own first / last
         // characters and from delimiters that lack one character
@@ -884,7 +1014,7 @@ fn gen_seg(out: &mut impl Write, tier: &str, rng: &mut Rng, part: &str, chunk: u
                 emit(out, run_seg(tlk, &fenc, s));
             }
         }
-        let n = if thorough { 20_000 } else { 3_000 };
+        let n = if thorough { 20_000 } else { 1_500 };
         for _ in 0..n {
             let len = 3 + rng.below(2) as usize;
             let mut parts: Vec<String> = vec![];
@@ -986,7 +1116,74 @@ fn gen_body(rng: &mut Rng, depth: u32, parts: &mut Vec<String>) {
     }
 }
 
+/// degenerate tags as programs, every family against the default syntax: comments with an empty /
+/// blank / marker-like body, tight and padded variable tags, `if` blocks and raw blocks with every
+/// marker placement — every sequence of <= 2 segments (tag, text-tag, tag-text, tag-tag) plus the
+/// tag between two texts
+fn gen_prog_degen(out: &mut impl Write, tier: &str, rng: &mut Rng) {
+    let fams = families();
+    let d = default_fam();
+    let mut gs: Vec<String> = vec![];
+    for l in MARKS {
+        for r in MARKS {
+            for body in ["", " ", "c", " - ", "-"] {
+                gs.push(g('c', l, r, body));
+            }
+            for body in [" v ", "v"] {
+                gs.push(g('v', l, r, body));
+            }
+            for (a, b) in [(" if t ", " endif "), ("if t", "endif")] {
+                gs.push(format!("{};{}", g('b', l, r, a), g('b', r, l, b)));
+                gs.push(format!("{};T78;{}", g('b', l, r, a), g('b', l, r, b)));
+            }
+            for l2 in MARKS {
+                for r2 in MARKS {
+                    gs.push(format!("R{}{}{}{}", l, r, l2, r2));
+                    if l == r && l2 == r2 {
+                        gs.push(format!("r{}{}{}{}", l, r, l2, r2));
+                        gs.push(format!("R{}{}{}{}{}", l, r, l2, r2, hexs(" x\n ")));
+                    }
+                }
+            }
+        }
+    }
+    let texts = [" ", "\n", "x", " \n "];
+    let mut seqs: Vec<String> = vec![];
+    for gi in &gs {
+        seqs.push(gi.clone());
+        for t in texts {
+            seqs.push(format!("{};{}", t_item(t), gi));
+            seqs.push(format!("{};{}", gi, t_item(t)));
+        }
+        seqs.push(format!("T78;{};{}", gi, t_item("\n](")));
+        for g2 in [g('c', '_', '_', ""), g('c', '-', '_', ""), g('v', '_', '_', " v ")] {
+            seqs.push(format!("{};{}", gi, g2));
+            seqs.push(format!("{};{}", g2, gi));
+        }
+    }
+    for s in &seqs {
+        if !is_free(&d, s) {
+            continue;
+        }
+        for f in fams.iter().skip(1) {
+            if !is_free(f, s) {
+                continue;
+            }
+            let fenc = f.enc();
+            if tier == "thorough" {
+                for tlk in ["110", "000", "101", "011"] {
+                    emit(out, run_prog(tlk, &fenc, s));
+                }
+            } else {
+                // trim_blocks + lstrip_blocks on, or a random setting
+                emit(out, run_prog(if rng.chance(1, 2) { "110" } else { *rng.pick(&TLK) }, &fenc, s));
+            }
+        }
+    }
+}
+
 fn gen_prog(out: &mut impl Write, tier: &str, rng: &mut Rng) {
+    gen_prog_degen(out, tier, rng);
     let fams = families();
     let n = if tier == "thorough" { 10_000 } else { 700 };
     let d = default_fam();
@@ -1014,9 +1211,36 @@ fn gen_prog(out: &mut impl Write, tier: &str, rng: &mut Rng) {
 
 // -- line statements --------------------------------------------------------------------------
 
+/// every family with line prefixes: the families that have them, and every other family with
+/// `#` / `##` (line comment prefix extends the statement prefix), with `@@` / `@` (the other way
+/// round) and with a statement prefix only / a comment prefix only (pattern ids 3 and 4 of the automaton)
+fn line_families() -> Vec<Fam> {
+    let mut v = vec![];
+    for f in families() {
+        if !f.ls().is_empty() {
+            v.push(f);
+            continue;
+        }
+        // the texts of the line stream are made of letters: not free under delimiters made of letters
+        if f.starts().iter().any(|(p, _)| p.chars().next().map_or(false, |c| c.is_alphanumeric())) {
+            continue;
+        }
+        for (tag, ls, lc) in [("h", "#", "##"), ("a", "@@", "@"), ("s", "%%", ""), ("c", "", "//")] {
+            let mut g = f.clone();
+            g.name = format!("{}+{}", f.name, tag);
+            g.d[6] = ls.to_string();
+            g.d[7] = lc.to_string();
+            if g.build_uncached().is_ok() {
+                v.push(g);
+            }
+        }
+    }
+    v
+}
+
 fn gen_line(out: &mut impl Write, tier: &str, rng: &mut Rng) {
-    let fams: Vec<Fam> = families().into_iter().filter(|f| !f.ls().is_empty()).collect();
-    let n = if tier == "thorough" { 40_000 } else { 4_000 };
+    let fams: Vec<Fam> = line_families();
+    let n = if tier == "thorough" { 80_000 } else { 8_000 };
     let indents = ["", " ", "  ", "\t", " \t "];
     let trails = ["", " ", "  ", "\t"];
     let texts = ["", "a", "  b", "c  ", " ", "x # y", "\u{1}", "z\u{1} ", "q%", "<p>", "\u{3}b", "a\u{3}"];
@@ -1026,7 +1250,15 @@ fn gen_line(out: &mut impl Write, tier: &str, rng: &mut Rng) {
         let nlines = 1 + rng.below(5);
         let mut items: Vec<String> = vec![];
         for _ in 0..nlines {
-            match rng.below(8) {
+            // only the kinds of lines the family has a prefix for
+            let mut kind = rng.below(8);
+            if f.ls().is_empty() && (3..=5).contains(&kind) {
+                kind = if rng.chance(1, 2) { 6 } else { 7 };
+            }
+            if f.lc().is_empty() && kind >= 6 {
+                kind = 3;
+            }
+            match kind {
                 0 | 1 | 2 => items.push(format!("X{}", hexs(pk(rng, &texts)))),
                 3 | 4 | 5 => items.push(format!("S{}.{}", hexs(pk(rng, &indents)), hexs(pk(rng, &trails)))),
                 6 => items.push(format!("K{}.{}", hexs(pk(rng, &["", " ", "  ", "\t", " \t ", "\u{a0}", " \u{3000}"])), hexs(pk(rng, &comments)))),
@@ -1198,6 +1430,123 @@ fn gen_kern(out: &mut impl Write) {
     }
     for c in KERN_ALPHA {
         emit(out, run_kern("memchr", &hex(&[c])));
+    }
+}
+
+// -- the start marker search as a kernel --------------------------------------------------------
+
+const KAC_ALPHA: [char; 4] = ['a', 'b', ' ', '\n'];
+
+fn kac_words(n: usize) -> Vec<String> {
+    let mut out: Vec<String> = vec![String::new()];
+    let mut level: Vec<String> = vec![String::new()];
+    for _ in 0..n {
+        let mut next = vec![];
+        for w in &level {
+            for c in KAC_ALPHA {
+                let mut x = w.clone();
+                x.push(c);
+                next.push(x);
+            }
+        }
+        out.extend(next.iter().cloned());
+        level = next;
+    }
+    out
+}
+
+/// `kac <fam> <maxlen> <hex prefix>`: the real `find_start_marker(prefix + haystack, prefix.len())`
+/// for every haystack of length <= maxlen over {a, b, blank, line break}; three characters per
+/// haystack: offset, marker kind, length of the matched start delimiter
+#[cfg(feature = "hooks")]
+fn run_kac(fam: &str, maxlen: &str, prefix_hex: &str) -> String {
+    let f = Fam::dec(fam);
+    let n: usize = maxlen.parse().unwrap();
+    let prefix = unhexs(prefix_hex);
+    let syn = match f.build() {
+        Ok(s) => s,
+        Err(_) => return format!("kac {} {} {}\tres=badcfg", fam, maxlen, prefix_hex),
+    };
+    let r = guarded(|| {
+        let mut out = String::new();
+        for h in kac_words(n) {
+            let src = format!("{}{}", prefix, h);
+            match minijinja::verif_hooks::find_start_marker(&src, prefix.len(), &syn) {
+                Some((start, kind, len)) => {
+                    out.push(kern_digit(Some(start)));
+                    out.push(kind);
+                    out.push(kern_digit(Some(len)));
+                }
+                None => out.push_str("..."),
+            }
+        }
+        out
+    });
+    format!("kac {} {} {}\tres={}", fam, maxlen, prefix_hex, r.unwrap_or_else(|_| "panic".into()))
+}
+
+#[cfg(not(feature = "hooks"))]
+fn run_kac(fam: &str, maxlen: &str, prefix_hex: &str) -> String {
+    format!("kac {} {} {}\tres=nohooks", fam, maxlen, prefix_hex)
+}
+
+/// all ways of picking `k` of the items in order
+fn arrangements(items: &[&'static str], k: usize) -> Vec<Vec<&'static str>> {
+    if k == 0 {
+        return vec![vec![]];
+    }
+    let mut out = vec![];
+    for (i, x) in items.iter().enumerate() {
+        let rest: Vec<&'static str> = items.iter().enumerate().filter(|(j, _)| *j != i).map(|(_, y)| *y).collect();
+        for mut tail in arrangements(&rest, k - 1) {
+            let mut v = vec![*x];
+            v.append(&mut tail);
+            out.push(v);
+        }
+    }
+    out
+}
+
+/// Start delimiter sets over {a, b} whose members are prefixes, suffixes and infixes of one another
+/// and overlap themselves, in every role: every assignment of the five words of a template to
+/// variable / block / comment start and the two line prefixes, and every assignment of three or
+/// four of them (no line prefixes, only a statement prefix, only a comment prefix).
+fn gen_kac(out: &mut impl Write, tier: &str, rng: &mut Rng) {
+    let thorough = tier == "thorough";
+    let templates: [[&'static str; 5]; 4] = [
+        ["a", "aa", "aaa", "ab", "aab"],       // prefix chains, self-overlap
+        ["ab", "b", "bab", "abab", "ba"],      // suffixes, infixes, self-overlap with period 2
+        ["aba", "ab", "ba", "a", "abaab"],     // border `a`, `aba` inside `abaab`
+        ["b", "bb", "abb", "bba", "abba"],     // suffix chains
+    ];
+    let mut sets: Vec<[String; 5]> = vec![];
+    for (ti, t) in templates.iter().enumerate() {
+        for (k, every) in [(5usize, if thorough || ti == 0 { 1 } else { 4 }), (3, if thorough { 1 } else { 3 }), (4, if thorough { 1 } else { 6 })] {
+            for (i, a) in arrangements(&t[..], k).into_iter().enumerate() {
+                if i % every != (ti % every) {
+                    continue;
+                }
+                match k {
+                    5 => sets.push([a[0].into(), a[1].into(), a[2].into(), a[3].into(), a[4].into()]),
+                    3 => sets.push([a[0].into(), a[1].into(), a[2].into(), "".into(), "".into()]),
+                    _ => {
+                        sets.push([a[0].into(), a[1].into(), a[2].into(), a[3].into(), "".into()]);
+                        sets.push([a[0].into(), a[1].into(), a[2].into(), "".into(), a[3].into()]);
+                    }
+                }
+            }
+        }
+    }
+    let maxlen = if thorough { "6" } else { "5" };
+    for (i, st) in sets.iter().enumerate() {
+        let f = Fam { name: format!("kac{}", i), d: [st[1].clone(), "%}".into(), st[0].clone(), "}}".into(), st[2].clone(), "#}".into(), st[3].clone(), st[4].clone()] };
+        let fenc = f.enc();
+        emit(out, run_kac(&fenc, maxlen, ""));
+        // the search starts behind text: in the middle of a line, at a line start behind blanks
+        if thorough || rng.chance(1, 4) {
+            emit(out, run_kac(&fenc, if thorough { "5" } else { "4" }, &hexs("a ")));
+            emit(out, run_kac(&fenc, if thorough { "5" } else { "4" }, &hexs("a\n \t")));
+        }
     }
 }
 
@@ -1456,6 +1805,9 @@ fn main() {
             if which == "all" || which == "kern" {
                 gen_kern(&mut out);
             }
+            if which == "all" || which == "kac" {
+                gen_kac(&mut out, &tier, &mut Rng::new(seed ^ 0x70));
+            }
             if which == "all" || which == "entry" {
                 gen_entry(&mut out, &tier, &mut Rng::new(seed ^ 0x50));
             }
@@ -1475,6 +1827,7 @@ fn main() {
                 "cfg" => run_cfg(a[1]),
                 "rand" => run_rand(a[1], a[2], a[3]),
                 "kern" => run_kern(a[1], a[2]),
+                "kac" => run_kac(a[1], a[2], a.get(3).copied().unwrap_or("")),
                 "big" => run_seg(a[1], a[2], a[3]).replacen("seg ", "big ", 1),
                 "entry" => run_entry(a[1], a[2], a[3]),
                 "wrap" => run_wrap(a[1], a[2], a[3], a[4]),
